@@ -70,8 +70,17 @@ func (r *progReader) Read(p []byte) (int, error) {
 type progSeeker struct{ progReader }
 
 func (r *progSeeker) Seek(off int64, whence int) (int64, error) {
-	if whence != io.SeekStart {
-		return 0, errors.New("unsupported")
+	switch whence {
+	case io.SeekStart:
+	case io.SeekCurrent:
+		off += int64(r.off)
+	case io.SeekEnd:
+		off += int64(len(r.b))
+	default:
+		return 0, errors.New("unsupported whence")
+	}
+	if off < 0 {
+		return 0, errors.New("negative position")
 	}
 	r.off = int(off)
 	return off, nil
